@@ -193,14 +193,16 @@ func genEdits(rng *rand.Rand) *specs.ContainerEdits {
 			if rng.Intn(3) == 0 {
 				d.Permissions = []string{"r", "rw", "rwm", "m"}[rng.Intn(4)]
 			}
-			if rng.Intn(4) == 0 {
-				d.UID = u32p(uint32(rng.Intn(2000)))
+			// an explicit 0 is not "unset": root-owned nodes in containers of an unprivileged user
+			ids := []uint32{0, 0, 500, 600, 1, 4294967295, uint32(rng.Intn(2000))}
+			if rng.Intn(3) == 0 {
+				d.UID = u32p(ids[rng.Intn(len(ids))])
+			}
+			if rng.Intn(3) == 0 {
+				d.GID = u32p(ids[rng.Intn(len(ids))])
 			}
 			if rng.Intn(4) == 0 {
-				d.GID = u32p(uint32(rng.Intn(2000)))
-			}
-			if rng.Intn(4) == 0 {
-				m := os.FileMode(0o640)
+				m := []os.FileMode{0o640, 0, 0o777, 0o1777, 0o4755, 0o7777, os.ModeCharDevice | 0o660, os.ModeSetuid | 0o755}[rng.Intn(8)]
 				d.FileMode = &m
 			}
 			e.DeviceNodes = append(e.DeviceNodes, d)
